@@ -477,11 +477,37 @@ func (t *textRun) runHistory(i uint64, rng *common.RNG) {
 		}
 	}
 	rec.Distinct(common.Hash64([]byte("history"), []byte(label), msgBytes(probe.msg)))
+	// Struct lists for EncodeList, rendered by the same long-lived encoder
+	// every 16th call: one list per shape of the set plus a Zdate and a
+	// PlaneBase list, so that consecutive EncodeList calls always change the
+	// element type (see textlists.go).
+	var hlists []*listValue
+	for _, name := range append(append([]string{}, set...), "Zdate", "PlaneBase") {
+		if name == "Z.zvec" {
+			name = "Z"
+		}
+		lv, ok := t.buildListValue(i, shapeByName(name), rng, 3, false)
+		if !ok {
+			return
+		}
+		hlists = append(hlists, lv)
+	}
+	prevList := ""
 	var buf bytes.Buffer
 	enc := text.NewEncoder(&buf)
 	input := map[string]interface{}{"shapes": set, "n": n, "probe_segment": common.Hex(msgBytes(probe.msg))}
 	diverged := false
 	for k := 0; k < n && !diverged; k++ {
+		if k%16 == 15 {
+			lv := hlists[(k/16)%len(hlists)]
+			if !t.encodeListStep(i, enc, &buf, lv, prevList, k+1, []string{fmt.Sprintf("long history of Encode calls, shapes %v", set)}) {
+				rec.Max("max_history_len", int64(k+1))
+				rec.Count("history_runs", 1)
+				return
+			}
+			prevList = lv.base
+			rec.Count("history_list_encodes", 1)
+		}
 		hv := probe
 		if k%2 == 1 {
 			hv = vals[(k/2)%len(vals)]
